@@ -23,6 +23,14 @@ type Case struct {
 	Prog *gm.Program `json:"prog"`
 }
 
+// CaseGen builds one enumerated body on demand (the thorough enumeration is too large to keep as ASTs).
+type CaseGen struct {
+	Name string
+	Mk   func() *gm.Program
+}
+
+func (g CaseGen) Case() Case { return Case{g.Name, g.Mk()} }
+
 // ---- hole fillers ----
 
 type hole struct {
@@ -404,33 +412,40 @@ type Bounds struct {
 
 // Enumerate lists all bodies within the bounds, simplest first. Each body is emitted with Cap=false and
 // Cap=true; the function-kind variant (method) is added for the bodies without statement context.
-func Enumerate(b Bounds) []Case {
-	var res []Case
-	add := func(name string, body []*gm.N) {
-		res = append(res, Case{name, &gm.Program{Body: body}})
-		res = append(res, Case{name + " [captured]", &gm.Program{Body: gm.CloneList(body), Cap: true}})
+func Enumerate(b Bounds) []CaseGen {
+	var res []CaseGen
+	add := func(name string, body func() []*gm.N) {
+		res = append(res, CaseGen{name, func() *gm.Program { return &gm.Program{Body: body()} }})
+		res = append(res, CaseGen{name + " [captured]", func() *gm.Program { return &gm.Program{Body: body(), Cap: true} }})
 	}
 	all := sctxs()
 	// expression part
-	xs := exprs(b.ExprDepth, b.Rich)
+	xsAll := exprs(b.ExprDepth, b.Rich)
 	forms := sforms()
 	for d := 0; d <= b.ExprSDepth; d++ {
 		n := len(all)
+		xs := xsAll
 		if d >= 2 {
 			n = nCoreSctx
+			xs = exprs(1, b.Rich) // nested expression contexts only below <= 1 statement context
 		}
 		for _, p := range paths(d, n) {
+			p := p
 			for _, x := range xs {
-				add("expr: "+pathName(p)+"a="+x.name, wrap(p, forms[0].mk(x.mk())))
+				x := x
+				add("expr: "+pathName(p)+"a="+x.name, func() []*gm.N { return wrap(p, forms[0].mk(x.mk())) })
 			}
 			if d == 0 {
 				for _, x := range xs {
-					body := wrap(p, forms[0].mk(x.mk()))
-					res = append(res, Case{"expr: method " + x.name, &gm.Program{Body: body, Kind: gm.KindMethod}})
+					x := x
+					res = append(res, CaseGen{"expr: method " + x.name, func() *gm.Program {
+						return &gm.Program{Body: wrap(p, forms[0].mk(x.mk())), Kind: gm.KindMethod}
+					}})
 				}
 			}
 			if d <= 1 {
 				for _, fm := range forms[1:] {
+					fm := fm
 					// the other statement forms hold the single hole fillers: the statement form `X;`
 					// (value discarded) all of them, the others the first ten
 					n := 10
@@ -438,7 +453,8 @@ func Enumerate(b Bounds) []Case {
 						n = nSingleFillers
 					}
 					for _, x := range xs[:n] {
-						add("expr: "+pathName(p)+fm.name+" "+x.name, wrap(p, fm.mk(x.mk())))
+						x := x
+						add("expr: "+pathName(p)+fm.name+" "+x.name, func() []*gm.N { return wrap(p, fm.mk(x.mk())) })
 					}
 				}
 			}
@@ -452,7 +468,9 @@ func Enumerate(b Bounds) []Case {
 			n = len(all)
 		}
 		for _, p := range paths(d, n) {
+			p := p
 			for _, t := range tails() {
+				t := t
 				if t.needLoop && !inLoop(p) {
 					continue
 				}
@@ -460,12 +478,12 @@ func Enumerate(b Bounds) []Case {
 					continue // already in the expression part
 				}
 				for _, x := range core {
-					in := append(forms[0].mk(x.mk()), t.mk()...)
+					x := x
 					nm := "ctl: " + pathName(p) + x.name
 					if t.name != "" {
 						nm += "; " + t.name
 					}
-					add(nm, wrap(p, in))
+					add(nm, func() []*gm.N { return wrap(p, append(forms[0].mk(x.mk()), t.mk()...)) })
 				}
 			}
 		}
@@ -479,4 +497,10 @@ func quickBounds() Bounds {
 
 func thoroughBounds() Bounds {
 	return Bounds{ExprDepth: 2, Rich: true, ExprSDepth: 2, CtlSDepth: 3, CtlAllDepth: 2, CtlStmts: 6}
+}
+
+// boundsText describes bounds for the evidence file.
+func boundsText(b Bounds) string {
+	return fmt.Sprintf("expression contexts nested <= %d, statement contexts <= %d around expressions, <= %d in the control-flow part (all %d contexts up to depth %d, the %d core ones above), %d core statements",
+		b.ExprDepth, b.ExprSDepth, b.CtlSDepth, len(sctxs()), b.CtlAllDepth, nCoreSctx, b.CtlStmts)
 }
